@@ -56,11 +56,12 @@ type Frame struct {
 	curBlock  *ssa.BasicBlock
 	inLoopCtx bool // the call that created this frame sits inside a loop of an enclosing frame
 	entry     *State
+	caller    *Frame // the frame (of this path) whose call created this one by inlining; nil for the function under proof
 }
 
 func (f *Frame) clone() *Frame {
 	n := &Frame{fn: f.fn, env: make(map[ssa.Value]Val, len(f.env)), defers: append([]deferred(nil), f.defers...), prev: f.prev,
-		depth: f.depth, loopCut: make(map[*ssa.BasicBlock]bool, len(f.loopCut)), top: f.top, args: f.args, stack: f.stack, entry: f.entry, unrolled: f.unrolled, curBlock: f.curBlock, inLoopCtx: f.inLoopCtx}
+		depth: f.depth, loopCut: make(map[*ssa.BasicBlock]bool, len(f.loopCut)), top: f.top, args: f.args, stack: f.stack, entry: f.entry, unrolled: f.unrolled, curBlock: f.curBlock, inLoopCtx: f.inLoopCtx, caller: f.caller}
 	for k, v := range f.env {
 		n.env[k] = v
 	}
@@ -74,6 +75,7 @@ type Outcome struct {
 	St    *State
 	Ret   []Val
 	Panic bool
+	Fr    *Frame // the frame that returned (set at Return instructions): lets postconditions name described locals
 }
 
 type LoopInfo struct {
@@ -132,6 +134,7 @@ type Exec struct {
 	maxOps        int
 	callSites     map[string][]string
 	topFrame      *Frame
+	curSkip       *bool
 	immutableKeys map[string]bool
 	steps         int
 	stepBudget    int
@@ -495,7 +498,7 @@ func (ex *Exec) runBlock(fr *Frame, st *State, b *ssa.BasicBlock, idx int) []Out
 			for k, r := range x.Results {
 				ret[k] = ex.val(fr, st, r)
 			}
-			return []Outcome{{St: st, Ret: ret}}
+			return []Outcome{{St: st, Ret: ret, Fr: fr}}
 		case *ssa.Panic:
 			ex.paths++
 			st.Tracef("%s: panic", ex.pos(x.Pos()))
